@@ -578,3 +578,14 @@ CHECKS["C04"]["theorems"] += [RX + n for n in ["C04_disposeRest_drains", "C04_di
 CHECKS["C04"]["status"] += ("; no orphans (Props/C04Orphans, repair D23): in EVERY reachable state every live node that has an owner has a LIVE owner "
     "(C04_reachable_noOrphan: the live nodes are exactly those owned by live scopes), disposing a node leaves no live node owned by it, for arbitrary cleanups; "
     "false without the loop of the repair (C04_noLoop_leaves_orphan)")
+CHECKS["C12"]["classes"] = CHECKS["C12"]["classes"] + ["ssr-isolation", "hang"]
+CHECKS["C13"]["classes"] = CHECKS["C13"]["classes"] + ["ssr-isolation", "hang"]
+
+# --- boundaries that READ a resource (Model/Async ResR, mode resourcerd): Props/C13Readers
+CHECKS["C13"]["lean_modules"] = CHECKS["C13"]["lean_modules"] + ["SycVerif.Props.C13Readers"]
+CHECKS["C13"]["theorems"] += [AS + n for n in ["C13_readers_reachable", "C13_readers_released", "C13_reader_guard_survives_write",
+    "C13_reader_guard_survives_stale_finish", "C13_reader_read", "C13_recorded_reader_suspended_by_next_fetch"]]
+CHECKS["C13"]["status"] += ("; boundaries that read a resource (Props/C13Readers): for every sequence of reads, reader disposals, dependency writes, completions of any fetch and "
+    "the disposal of the owner, a boundary holds a guard only while the latest fetch is outstanding and the owner lives, a dependency change or the completion of a superseded "
+    "fetch does not release it, the next fetch suspends the boundaries recorded in between")
+CHECKS["C09"]["classes"] = CHECKS["C09"]["classes"] + ["hydrate-build-write-attr"]
